@@ -1,7 +1,292 @@
-// Package c20 interprets the C20 op language against the real packages (stub).
+// Package c20 interprets the C20 op language against the real core/outlier package: a slot chain with
+// the outlier slots, api.Entry / api.TraceCallee / api.TraceError / Exit in virtual time, and the
+// recycler / retryer driven through their own methods (their timers use real time and never fire
+// during a case).
 package c20
 
-import "verifharness/internal/vh"
+import (
+	"errors"
+	"fmt"
+	"os"
+	"reflect"
+	"runtime"
+	"sort"
+	"strings"
+	"time"
+	_ "unsafe" // go:linkname
 
-// New returns the interpreter for C20.
-func New() vh.Interp { return nil }
+	"github.com/alibaba/sentinel-golang/api"
+	"github.com/alibaba/sentinel-golang/core/base"
+	"github.com/alibaba/sentinel-golang/core/circuitbreaker"
+	"github.com/alibaba/sentinel-golang/core/outlier"
+	"github.com/alibaba/sentinel-golang/core/stat"
+	"verifharness/internal/vh"
+)
+
+// Read-only access to the package's unexported per-node state and the timer callbacks (the callbacks
+// are what time.AfterFunc would invoke; calling them directly replaces waiting in real time).
+
+//go:linkname getNodeBreakersOfResource github.com/alibaba/sentinel-golang/core/outlier.getNodeBreakersOfResource
+func getNodeBreakersOfResource(resource string) map[string]circuitbreaker.CircuitBreaker
+
+//go:linkname getRecyclerOfResource github.com/alibaba/sentinel-golang/core/outlier.getRecyclerOfResource
+func getRecyclerOfResource(resource string) *outlier.Recycler
+
+//go:linkname getRetryerOfResource github.com/alibaba/sentinel-golang/core/outlier.getRetryerOfResource
+func getRetryerOfResource(resource string) *outlier.Retryer
+
+//go:linkname recyclerRecycle github.com/alibaba/sentinel-golang/core/outlier.(*Recycler).recycle
+func recyclerRecycle(r *outlier.Recycler, node string)
+
+//go:linkname retryerOnConnected github.com/alibaba/sentinel-golang/core/outlier.(*Retryer).onConnected
+func retryerOnConnected(r *outlier.Retryer, node string, rt uint64)
+
+const startMs = 1_900_000_000_000
+
+type loaded struct {
+	cbPart string
+	rule   *outlier.Rule
+}
+
+type Interp struct {
+	clk    *vh.Clock
+	chain  *base.SlotChain
+	caseNo int
+	rules  map[string]*loaded // by op-level resource name
+	order  []string
+	raw    bool
+}
+
+var curCase int
+
+func New() vh.Interp {
+	runtime.GOMAXPROCS(1)
+	vh.Silence()
+	sc := base.NewSlotChain()
+	sc.AddStatPrepareSlot(stat.DefaultResourceNodePrepareSlot)
+	sc.AddRuleCheckSlot(outlier.DefaultSlot)
+	sc.AddStatSlot(stat.DefaultSlot)
+	sc.AddStatSlot(outlier.DefaultMetricStatSlot)
+	return &Interp{clk: vh.NewClock(startMs), chain: sc, raw: os.Getenv("C20_RAW") == "1"}
+}
+
+func (it *Interp) Reset() {
+	it.caseNo++
+	curCase = it.caseNo
+	_, _ = outlier.LoadRules(nil)
+	stat.ResetResourceNodeMap()
+	it.rules = map[string]*loaded{}
+	it.order = nil
+	it.clk.SetMs(startMs)
+	settle()
+}
+
+// real resource name: unique per case (the package caches one recycler / retryer per resource name forever)
+func (it *Interp) rn(name string) string { return fmt.Sprintf("%s#%d", name, it.caseNo) }
+
+// let the two background consumers (recyclerCh, retryerCh) run until they block again
+func settle() {
+	for i := 0; i < 4; i++ {
+		runtime.Gosched()
+	}
+}
+
+func stName(s circuitbreaker.State) string {
+	switch s {
+	case circuitbreaker.Closed:
+		return "C"
+	case circuitbreaker.HalfOpen:
+		return "H"
+	case circuitbreaker.Open:
+		return "O"
+	}
+	return "?"
+}
+
+func states(res string) (map[string]circuitbreaker.State, string) {
+	m := map[string]circuitbreaker.State{}
+	var xs []string
+	for a, b := range getNodeBreakersOfResource(res) {
+		m[a] = b.CurrentState()
+		xs = append(xs, a+":"+stName(m[a]))
+	}
+	return m, vh.SortedList(xs)
+}
+
+// keys of the recycler's status map (read by reflection: the field is unexported)
+func scheduled(res string) map[string]bool {
+	r := getRecyclerOfResource(res)
+	st := reflect.ValueOf(r).Elem().FieldByName("status")
+	out := map[string]bool{}
+	for _, k := range st.MapKeys() {
+		out[k.String()] = true
+	}
+	return out
+}
+
+func (it *Interp) load(t []string) string {
+	// load <res> <strategy> <retryMs> <minReq> <statIntervalMs> <bucketCount> <maxRt> <thr f:> <probeNum> <maxEj f:> <active>
+	name := t[1]
+	thr, ok1 := vh.ParseFBits(t[8])
+	pe, ok2 := vh.ParseFBits(t[10])
+	if !ok1 || !ok2 {
+		panic("bad float")
+	}
+	res := it.rn(name)
+	cbPart := strings.Join(t[2:10], " ")
+	gen := it.caseNo
+	r := &outlier.Rule{
+		Rule: &circuitbreaker.Rule{
+			Resource:                     res,
+			Strategy:                     circuitbreaker.Strategy(vh.U(t[2])),
+			RetryTimeoutMs:               uint32(vh.U(t[3])),
+			MinRequestAmount:             vh.U(t[4]),
+			StatIntervalMs:               uint32(vh.U(t[5])),
+			StatSlidingWindowBucketCount: uint32(vh.U(t[6])),
+			MaxAllowedRtMs:               vh.U(t[7]),
+			Threshold:                    thr,
+			ProbeNum:                     vh.U(t[9]),
+		},
+		EnableActiveRecovery: t[11] != "0",
+		MaxEjectionPercent:   pe,
+		RecoveryIntervalMs:   4000, // real time: never fires within a case
+		RecycleIntervalS:     0,    // default 10 min real time
+		MaxRecoveryAttempts:  3,
+		// a retry timer that fires after its case is over reports "recovered" and so ends its chain
+		RecoveryCheckFunc: func(string) bool { return curCase != gen },
+	}
+	if outlier.IsValidRule(r) != nil || circuitbreaker.IsValidRule(r.Rule) != nil {
+		return "invalid"
+	}
+	if old, ok := it.rules[name]; ok && old.cbPart != cbPart {
+		return "unsupported-reload"
+	}
+	if _, ok := it.rules[name]; !ok {
+		it.order = append(it.order, name)
+	}
+	it.rules[name] = &loaded{cbPart: cbPart, rule: r}
+	var all []*outlier.Rule
+	for _, n := range it.order {
+		all = append(all, it.rules[n].rule)
+	}
+	if _, err := outlier.LoadRules(all); err != nil {
+		return "err"
+	}
+	return "ok"
+}
+
+// one request: Entry (the outlier slot's check), optional callee + error, clock += rt, Exit
+func (it *Interp) request(name, addr string, fail bool, rt uint64) string {
+	if _, ok := it.rules[name]; !ok {
+		panic("no rule for " + name)
+	}
+	res := it.rn(name)
+	pre, _ := states(res)
+	e, berr := api.Entry(res, api.WithSlotChain(it.chain), api.WithTrafficType(base.Outbound), api.WithResourceType(base.ResTypeRPC))
+	if berr != nil {
+		return "blocked"
+	}
+	settle()
+	ctx := e.Context()
+	filter := append([]string(nil), ctx.FilterNodes()...)
+	halfs := append([]string(nil), ctx.HalfOpenNodes()...)
+	post, postS := states(res)
+	// ground truth for "currently rejects traffic": ask every real breaker again at the same instant
+	// (TryPass is idempotent here: a timed-out Open breaker already moved to HalfOpen in the check);
+	// a breaker that made that move during the check was let through by it.
+	var rej []string
+	for a, b := range getNodeBreakersOfResource(res) {
+		if !b.TryPass(ctx) && !(pre[a] == circuitbreaker.Open && post[a] == circuitbreaker.HalfOpen) {
+			rej = append(rej, a)
+		}
+	}
+	sort.Strings(rej)
+	sort.Strings(filter)
+	// the recycler has been handed every outlier by now
+	if len(rej) > 0 {
+		for i := 0; i < 1000; i++ {
+			sch := scheduled(res)
+			all := true
+			for _, a := range rej {
+				all = all && sch[a]
+			}
+			if all {
+				break
+			}
+			runtime.Gosched()
+			if i > 100 {
+				time.Sleep(time.Millisecond)
+			}
+		}
+	}
+	fs := vh.List(filter)
+	if !it.raw && len(filter) < len(rej) && subset(filter, rej) {
+		fs = "*" // which of the rejecting nodes were taken depends on Go's map iteration order
+	}
+	if addr != "" {
+		api.TraceCallee(e, addr)
+		if fail {
+			api.TraceError(e, errors.New("fail"))
+		}
+	}
+	it.clk.SetMs(it.clk.CurrentTimeMillis() + rt)
+	e.Exit()
+	settle()
+	_, endS := states(res)
+	return fmt.Sprintf("n=%d nf=%d rej=%s filter=%s halfopen=%s post=%s end=%s",
+		len(pre), len(filter), vh.List(rej), fs, vh.SortedList(halfs), postS, endS)
+}
+
+func subset(xs, ys []string) bool {
+	m := map[string]bool{}
+	for _, y := range ys {
+		m[y] = true
+	}
+	for _, x := range xs {
+		if !m[x] {
+			return false
+		}
+	}
+	return true
+}
+
+func (it *Interp) Step(t []string, op string) string {
+	switch t[0] {
+	case "load":
+		return it.load(t)
+	case "clock":
+		ms := vh.U(t[1])
+		if ms < it.clk.CurrentTimeMillis() {
+			panic("clock going backwards")
+		}
+		it.clk.SetMs(ms)
+		return ""
+	case "call":
+		return it.request(t[1], t[2], t[3] == "err", vh.U(t[4]))
+	case "probe":
+		return it.request(t[1], "", false, 0)
+	case "recycle":
+		res := it.rn(t[1])
+		recyclerRecycle(getRecyclerOfResource(res), t[2])
+		m, s := states(res)
+		return fmt.Sprintf("n=%d nodes=%s", len(m), s)
+	case "retry":
+		res := it.rn(t[1])
+		retryerOnConnected(getRetryerOfResource(res), t[2], vh.U(t[3]))
+		_, s := states(res)
+		return "nodes=" + s
+	case "cap":
+		// the expression of checkAllNodes evaluated on its own (a test of the float arithmetic, not of the slot)
+		n := int(vh.U(t[1]))
+		p, ok := vh.ParseFBits(t[2])
+		if !ok {
+			panic("bad float")
+		}
+		return fmt.Sprint(int(float64(n) * p))
+	case "capdec":
+		n := int(vh.U(t[1]))
+		p := float64(vh.U(t[2])) / 100
+		return fmt.Sprintf("cap=%d p=%s", int(float64(n)*p), vh.FBits(p))
+	}
+	panic("unknown op " + t[0])
+}
